@@ -26,18 +26,67 @@ impl<T, const N: usize> SmallVec<[T; N]> {
     #[verifier::external_body]
     pub fn verif_extend_from_slice(&mut self, more: &[T]) ensures final(self).view() == old(self).view() + more@ { unimplemented!() }
     #[verifier::external_body]
+    pub fn is_empty(&self) -> (r: bool) ensures r == (self.view().len() == 0) { unimplemented!() }
+    // `v[i]` (R8: Index on a stand-in type)
+    #[verifier::external_body]
+    pub fn verif_index(&self, i: usize) -> (r: &T) requires i < self.view().len() ensures *r == self.view()[i as int] { unimplemented!() }
+    // `v.extend(w)` for an owned SmallVec `w` (R8)
+    #[verifier::external_body]
+    pub fn verif_extend(&mut self, more: Self) ensures final(self).view() == old(self).view() + more.view() { unimplemented!() }
+    #[verifier::external_body]
     pub fn verif_singleton(t: T) -> (r: Self) ensures r.view() == Seq::<T>::empty().push(t) { unimplemented!() }   // smallvec![t]
 }
 // tokio::sync::oneshot::Sender<BlockId>: sending wakes the waiter with that value (or fails if the waiter is gone)
 #[verifier::external_body]
 pub struct OneshotSender { _p: () }
-pub uninterp spec fn was_woken_with(id: BlockId) -> bool;
+// "the value `id` was handed to the channel of sender `tx`" (delivered unless the receiver is gone)
+pub uninterp spec fn sent_on(tx: OneshotSender, id: BlockId) -> bool;
 impl OneshotSender {
     #[verifier::external_body]
     pub fn send(self, id: BlockId) -> (r: Result<(), BlockId>)
-        ensures r is Ok ==> was_woken_with(id)
+        ensures sent_on(self, id)
     { unimplemented!() }
 }
+impl SmallVec<[BlockId; 1]> {
+    // `block_ids.sort()`: TRUSTED documented behaviour of slice::sort with the derived (lexicographic) order of
+    // (Slot, BlockHash), stated through its consequences: a permutation whose first element has the least slot
+    #[verifier::external_body]
+    pub fn sort(&mut self)
+        ensures
+            final(self).view().len() == old(self).view().len(),
+            forall|b: BlockId| #[trigger] final(self).view().contains(b) <==> old(self).view().contains(b),
+            old(self).view().no_duplicates() ==> final(self).view().no_duplicates(),
+            forall|i: int| 0 <= i < final(self).view().len() ==> final(self).view()[0].0.0 <= (#[trigger] final(self).view()[i]).0.0,
+    { unimplemented!() }
+}
+// tokio::sync::oneshot::Receiver<BlockId>
+#[verifier::external_body]
+pub struct OneshotReceiver { _p: () }
+pub uninterp spec fn paired(tx: OneshotSender, rx: OneshotReceiver) -> bool;
+// `oneshot::channel()` (R8)
+#[verifier::external_body]
+pub fn verif_oneshot_channel() -> (r: (OneshotSender, OneshotReceiver))
+    ensures paired(r.0, r.1)
+{ unimplemented!() }
+pub enum Either<L, R> { Left(L), Right(R) }
+
+
+// `list.iter().max_by_key(|(slot, _)| slot)` (R8): TRUSTED documented behaviour of Iterator::max_by_key
+#[verifier::external_body]
+pub fn verif_max_by_slot<'a>(v: &'a SmallVec<[(Slot, BlockId); 1]>) -> (r: Option<&'a (Slot, BlockId)>)
+    ensures
+        v.view().len() == 0 ==> r is None,
+        v.view().len() > 0 ==> r is Some && v.view().contains(*r->0)
+            && forall|i: int| 0 <= i < v.view().len() ==> (#[trigger] v.view()[i]).0.0 <= (*r->0).0.0,
+{ unimplemented!() }
+// `opt.into_iter().cloned().collect()` (R8)
+#[verifier::external_body]
+pub fn verif_opt_collect(o: Option<&(Slot, BlockId)>) -> (r: SmallVec<[(Slot, BlockId); 1]>)
+    ensures r.view() == (match o { None => Seq::<(Slot, BlockId)>::empty(), Some(e) => Seq::<(Slot, BlockId)>::empty().push(*e) })
+{ unimplemented!() }
+// `&[]` (R8)
+#[verifier::external_body]
+pub fn verif_empty_slice<'a>() -> (r: &'a [BlockId]) ensures r@.len() == 0 { unimplemented!() }
 #[verifier::external_body]
 pub fn verif_clone_block_id(b: &BlockId) -> (r: BlockId)
     ensures r == *b
@@ -56,10 +105,23 @@ impl ParentReadyState {
         match self.is_ready { IsReady::Ready(ids) => ids.view(), IsReady::NotReady(_) => Seq::<BlockId>::empty() }
     }
     pub open spec fn nf(&self) -> Seq<BlockHash> { self.notar_fallbacks.view() }
+    // a `Ready` list is never empty
+    pub open spec fn ready_nonempty(&self) -> bool { self.is_ready is Ready ==> self.ready().len() > 0 }
 }
 
 
 /*@ extract src/consensus/pool/parent_ready_tracker.rs :: struct ParentReadyTracker
+@*/
+
+/*@ extract src/consensus/pool/finality_tracker.rs :: struct FinalizationEvent
+derive
+@*/
+// the value of GENESIS_BLOCK_HASH (an all-zero array; its value plays no role here)
+pub uninterp spec fn spec_genesis_hash() -> BlockHash;
+/*@ extract src/crypto/merkle.rs :: const GENESIS_BLOCK_HASH
+prefix #[verifier::external_body]
+ensures
+        GENESIS_BLOCK_HASH == spec_genesis_hash(),
 @*/
 
 // the HashMap of per-slot states, seen as a map (the std HashMap is only touched through the stubs below)
@@ -72,6 +134,29 @@ pub broadcast proof fn axiom_default_state()
         !d.skip && d.nf().len() == 0 && d.ready().len() == 0 && d.is_ready == IsReady::NotReady(None)
     })
 {}
+
+// R8: the std HashMap calls of this file, named; TRUSTED documented behaviour
+#[verifier::external_body]
+pub fn verif_states_new() -> (r: HashMap<Slot, ParentReadyState>)      // HashMap::new()
+    ensures spec_map(r) == Map::<Slot, ParentReadyState>::empty()
+{ unimplemented!() }
+#[verifier::external_body]
+pub fn verif_states_insert(m: &mut HashMap<Slot, ParentReadyState>, k: Slot, v: ParentReadyState)      // m.insert(k, v)
+    ensures spec_map(*final(m)) == spec_map(*old(m)).insert(k, v)
+{ unimplemented!() }
+#[verifier::external_body]
+pub fn verif_states_get<'a>(m: &'a HashMap<Slot, ParentReadyState>, k: &Slot) -> (r: Option<&'a ParentReadyState>)      // m.get(k)
+    ensures r == (if spec_map(*m).contains_key(*k) { Some(&spec_map(*m)[*k]) } else { None })
+{ unimplemented!() }
+// m.retain(|slot, _| keep(slot)): keeps exactly the entries whose key satisfies the closure (the value is not looked at)
+#[verifier::external_body]
+pub fn verif_states_retain<F: Fn(&Slot) -> bool>(m: &mut HashMap<Slot, ParentReadyState>, f: F)
+    requires forall|k: Slot| #[trigger] f.requires((&k,))
+    ensures
+        forall|k: Slot| #[trigger] spec_map(*final(m)).contains_key(k) ==> spec_map(*old(m)).contains_key(k) && spec_map(*final(m))[k] == spec_map(*old(m))[k],
+        // the entry stays iff the closure, called on its key, returned true
+        forall|k: Slot| spec_map(*old(m)).contains_key(k) ==> f.ensures((&k,), #[trigger] spec_map(*final(m)).contains_key(k)),
+{ unimplemented!() }
 
 // ---------------------------------------------------------------- C07 specification (from the statement)
 pub open spec fn win_start(s: Slot) -> bool { s.0 % SLOTS_PER_WINDOW == 0 }
@@ -88,6 +173,7 @@ impl ParentReadyTracker {
         &&& (b.0.0 >= self.root.0 ==> self.nf_has(b))
         &&& forall|t: Slot| b.0.0 < t.0 < s.0 && t.0 >= self.root.0 ==> (#[trigger] self.st(t)).skip
     }
+    pub open spec fn rn(&self) -> bool { forall|s: Slot| (#[trigger] self.st(s)).ready_nonempty() }
     pub open spec fn skip_horizon(&self, h: int) -> bool {
         h <= u64::MAX && forall|t: Slot| (#[trigger] self.st(t)).skip ==> t.0 < h
     }
@@ -101,6 +187,8 @@ impl ParentReadyTracker {
         &&& forall|s: Slot| (#[trigger] self.st(s)).ready().no_duplicates()
         // J3: each notar-fallback mark is recorded once
         &&& forall|s: Slot| (#[trigger] self.st(s)).nf().no_duplicates()
+        // J7: a `Ready` list is never empty
+        &&& self.rn()
         // only finitely many slots are skip-certified
         &&& exists|h: int| self.skip_horizon(h)
     }
@@ -112,6 +200,62 @@ impl ParentReadyTracker {
         &&& p.0.0 < marked.0
         &&& (p.0.0 >= self.root.0 ==> self.nf_has(p))
         &&& forall|t: Slot| p.0.0 < t.0 <= marked.0 && t.0 >= self.root.0 ==> (#[trigger] self.st(t)).skip
+    }
+}
+
+impl ParentReadyTracker {
+    // `b` extends `a`: marks and recorded pairs only grow
+    pub open spec fn ext(a: ParentReadyTracker, b: ParentReadyTracker) -> bool {
+        &&& b.root == a.root
+        &&& forall|t: Slot| (#[trigger] a.st(t)).skip ==> b.st(t).skip
+        &&& forall|x: BlockId| a.nf_has(x) ==> #[trigger] b.nf_has(x)
+        &&& forall|t: Slot, x: BlockId| a.st(t).ready().contains(x) ==> #[trigger] b.st(t).ready().contains(x)
+    }
+    // (s, p) is a pair newly recorded between `a` and `b`, and rightly so
+    pub open spec fn ann(a: ParentReadyTracker, b: ParentReadyTracker, e: (Slot, BlockId)) -> bool {
+        win_start(e.0) && b.connected(e.1, e.0) && !a.st(e.0).ready().contains(e.1) && b.st(e.0).ready().contains(e.1)
+    }
+}
+pub proof fn lemma_ext_refl(a: ParentReadyTracker)
+    ensures ParentReadyTracker::ext(a, a)
+{}
+pub proof fn lemma_ext_trans(a: ParentReadyTracker, b: ParentReadyTracker, c: ParentReadyTracker)
+    requires ParentReadyTracker::ext(a, b), ParentReadyTracker::ext(b, c),
+    ensures ParentReadyTracker::ext(a, c),
+{
+    assert forall|t: Slot| (#[trigger] a.st(t)).skip implies c.st(t).skip by { assert(b.st(t).skip); }
+    assert forall|x: BlockId| a.nf_has(x) implies #[trigger] c.nf_has(x) by { assert(b.nf_has(x)); }
+    assert forall|t: Slot, x: BlockId| a.st(t).ready().contains(x) implies #[trigger] c.st(t).ready().contains(x) by { assert(b.st(t).ready().contains(x)); }
+}
+pub proof fn lemma_ann_ext(a: ParentReadyTracker, b: ParentReadyTracker, c: ParentReadyTracker, e: (Slot, BlockId))
+    requires ParentReadyTracker::ann(a, b, e), ParentReadyTracker::ext(b, c),
+    ensures ParentReadyTracker::ann(a, c, e),
+{
+    let p = e.1;
+    if p.0.0 >= b.root.0 { assert(c.nf_has(p)); }
+    assert forall|t: Slot| p.0.0 < t.0 < e.0.0 && t.0 >= c.root.0 implies (#[trigger] c.st(t)).skip by { assert(b.st(t).skip); }
+    assert(c.st(e.0).ready().contains(p));
+}
+pub proof fn lemma_ann_pre(a: ParentReadyTracker, b: ParentReadyTracker, c: ParentReadyTracker, e: (Slot, BlockId))
+    requires ParentReadyTracker::ext(a, b), ParentReadyTracker::ann(b, c, e),
+    ensures ParentReadyTracker::ann(a, c, e),
+{
+    if a.st(e.0).ready().contains(e.1) { assert(b.st(e.0).ready().contains(e.1)); }
+}
+// one marking step appended to the announcements collected so far
+pub proof fn lemma_collect(pre: ParentReadyTracker, cur: ParentReadyTracker, nxt: ParentReadyTracker,
+                           acc: Seq<(Slot, BlockId)>, more: Seq<(Slot, BlockId)>)
+    requires
+        ParentReadyTracker::ext(pre, cur), ParentReadyTracker::ext(cur, nxt),
+        forall|i: int| 0 <= i < acc.len() ==> ParentReadyTracker::ann(pre, cur, #[trigger] acc[i]),
+        forall|i: int| 0 <= i < more.len() ==> ParentReadyTracker::ann(cur, nxt, #[trigger] more[i]),
+    ensures
+        ParentReadyTracker::ext(pre, nxt),
+        forall|i: int| 0 <= i < (acc + more).len() ==> ParentReadyTracker::ann(pre, nxt, #[trigger] (acc + more)[i]),
+{
+    lemma_ext_trans(pre, cur, nxt);
+    assert forall|i: int| 0 <= i < (acc + more).len() implies ParentReadyTracker::ann(pre, nxt, #[trigger] (acc + more)[i]) by {
+        if i < acc.len() { lemma_ann_ext(pre, cur, nxt, acc[i]); } else { lemma_ann_pre(pre, cur, nxt, more[i - acc.len()]); }
     }
 }
 
@@ -130,6 +274,7 @@ pub proof fn lemma_wf_step(a: ParentReadyTracker, b: ParentReadyTracker)
         forall|t: Slot| (#[trigger] b.st(t)).skip == a.st(t).skip,
         forall|t: Slot| (#[trigger] b.st(t)).nf() == a.st(t).nf(),
         forall|t: Slot| (#[trigger] b.st(t)).ready() == a.st(t).ready(),
+        b.rn(),
     ensures b.wf(),
 {
     assert forall|s: Slot| (#[trigger] b.st(s)).nf().no_duplicates() by { assert(a.st(s).nf().no_duplicates()); }
@@ -152,7 +297,7 @@ pub proof fn lemma_wf_step(a: ParentReadyTracker, b: ParentReadyTracker)
 // in (id.slot, last], all slots strictly between being skip-certified
 pub proof fn lemma_wf_extend(a: ParentReadyTracker, b: ParentReadyTracker, id: BlockId, last: Slot)
     requires
-        a.wf(), b.root == a.root, id.0.0 >= a.root.0,
+        a.wf(), b.root == a.root, id.0.0 >= a.root.0, b.rn(),
         !a.nf_has(id), b.nf_has(id),
         forall|t: Slot| (#[trigger] b.st(t)).skip == a.st(t).skip,
         forall|t: Slot| (#[trigger] b.st(t)).nf() == (if t == id.0 { a.st(t).nf().push(id.1) } else { a.st(t).nf() }),
@@ -162,9 +307,16 @@ pub proof fn lemma_wf_extend(a: ParentReadyTracker, b: ParentReadyTracker, id: B
     ensures
         b.wf(),
         forall|x: BlockId| a.nf_has(x) ==> #[trigger] b.nf_has(x),
-        forall|t: Slot| id.0.0 < t.0 <= last.0 && win_start(t) ==> b.connected(id, t) && !a.st(t).ready().contains(id)
-            && (#[trigger] b.st(t)).ready().contains(id),
+        forall|t: Slot| id.0.0 < t.0 <= last.0 && win_start(t) ==> #[trigger] b.connected(id, t),
+        forall|t: Slot| id.0.0 < t.0 <= last.0 && win_start(t) ==> !(#[trigger] a.st(t)).ready().contains(id),
+        forall|t: Slot| id.0.0 < t.0 <= last.0 && win_start(t) ==> (#[trigger] b.st(t)).ready().contains(id),
+        ParentReadyTracker::ext(a, b),
 {
+    assert forall|t: Slot, x: BlockId| a.st(t).ready().contains(x) implies #[trigger] b.st(t).ready().contains(x) by {
+        let q = a.st(t).ready();
+        let i = choose|i: int| 0 <= i < q.len() && q[i] == x;
+        assert(q.push(id)[i] == x);
+    }
     let h = choose|h: int| a.skip_horizon(h);
     assert(b.skip_horizon(h));
     assert forall|x: BlockId| a.nf_has(x) implies #[trigger] b.nf_has(x) by {
@@ -172,11 +324,15 @@ pub proof fn lemma_wf_extend(a: ParentReadyTracker, b: ParentReadyTracker, id: B
         let i = choose|i: int| 0 <= i < q.len() && q[i] == x.1;
         if x.0 == id.0 { assert(q.push(id.1)[i] == x.1); }
     }
-    assert forall|t: Slot| id.0.0 < t.0 <= last.0 && win_start(t) implies b.connected(id, t) && !a.st(t).ready().contains(id)
-            && (#[trigger] b.st(t)).ready().contains(id) by {
+    assert forall|t: Slot| id.0.0 < t.0 <= last.0 && win_start(t) implies (#[trigger] b.st(t)).ready().contains(id) by {
         let q = a.st(t).ready();
         assert(q.push(id)[q.len() as int] == id);
+    }
+    assert forall|t: Slot| id.0.0 < t.0 <= last.0 && win_start(t) implies #[trigger] b.connected(id, t) by {
         assert forall|u: Slot| id.0.0 < u.0 < t.0 && u.0 >= b.root.0 implies (#[trigger] b.st(u)).skip by { assert(a.st(u).skip); }
+    }
+    assert forall|t: Slot| id.0.0 < t.0 <= last.0 && win_start(t) implies !(#[trigger] a.st(t)).ready().contains(id) by {
+        let q = a.st(t).ready();
         if q.contains(id) {
             let i = choose|i: int| 0 <= i < q.len() && q[i] == id;
             assert(a.connected(a.st(t).ready()[i], t));
@@ -235,7 +391,7 @@ impl ParentReadyTracker {
     }
 }
 pub proof fn lemma_wf_skip(pre: ParentReadyTracker, mid: ParentReadyTracker, marked: Slot)
-    requires ParentReadyTracker::skip_step(pre, mid, marked),
+    requires ParentReadyTracker::skip_step(pre, mid, marked), mid.rn(),
     ensures mid.wf(),
 {
     let h = choose|h: int| pre.skip_horizon(h);
@@ -323,7 +479,7 @@ pub proof fn lemma_not_yet(pre: ParentReadyTracker, mid: ParentReadyTracker, mar
 // wf after the forward propagation of `mark_skipped`
 pub proof fn lemma_wf_extend2(a: ParentReadyTracker, b: ParentReadyTracker, marked: Slot, pp: Seq<BlockId>, last: Slot)
     requires
-        a.wf(), b.root == a.root, marked.0 >= a.root.0, a.st(marked).skip, a.scan_ok(marked, pp), last.0 >= marked.0,
+        a.wf(), b.root == a.root, marked.0 >= a.root.0, a.st(marked).skip, a.scan_ok(marked, pp), last.0 >= marked.0, b.rn(),
         forall|t: Slot| (#[trigger] b.st(t)).skip == a.st(t).skip,
         forall|t: Slot| (#[trigger] b.st(t)).nf() == a.st(t).nf(),
         forall|t: Slot| marked.0 < t.0 < last.0 ==> (#[trigger] a.st(t)).skip,
@@ -332,16 +488,26 @@ pub proof fn lemma_wf_extend2(a: ParentReadyTracker, b: ParentReadyTracker, mark
             (if marked.0 < t.0 <= last.0 && win_start(t) { a.st(t).ready() + pp } else { a.st(t).ready() }),
     ensures
         b.wf(),
-        forall|t: Slot, x: int| marked.0 < t.0 <= last.0 && win_start(t) && 0 <= x < pp.len() ==>
-            #[trigger] b.connected(pp[x], t) && b.st(t).ready().contains(pp[x]),
+        forall|t: Slot, x: int| marked.0 < t.0 <= last.0 && win_start(t) && 0 <= x < pp.len() ==> #[trigger] b.connected(pp[x], t),
+        forall|t: Slot, x: int| marked.0 < t.0 <= last.0 && win_start(t) && 0 <= x < pp.len() ==> #[trigger] b.st(t).ready().contains(pp[x]),
+        ParentReadyTracker::ext(a, b),
 {
+    assert forall|t: Slot, x: BlockId| a.st(t).ready().contains(x) implies #[trigger] b.st(t).ready().contains(x) by {
+        let q = a.st(t).ready();
+        let i = choose|i: int| 0 <= i < q.len() && q[i] == x;
+        assert((q + pp)[i] == x);
+    }
+    assert forall|x: BlockId| a.nf_has(x) implies #[trigger] b.nf_has(x) by { assert(b.st(x.0).nf() == a.st(x.0).nf()); }
     let h = choose|h: int| a.skip_horizon(h);
     assert(b.skip_horizon(h));
     assert forall|s: Slot| (#[trigger] b.st(s)).nf().no_duplicates() by { assert(a.st(s).nf().no_duplicates()); }
     assert forall|t: Slot, x: int| marked.0 < t.0 <= last.0 && win_start(t) && 0 <= x < pp.len() implies
-            #[trigger] b.connected(pp[x], t) && b.st(t).ready().contains(pp[x]) by {
+            #[trigger] b.st(t).ready().contains(pp[x]) by {
         let q = a.st(t).ready();
         assert((q + pp)[q.len() + x] == pp[x]);
+    }
+    assert forall|t: Slot, x: int| marked.0 < t.0 <= last.0 && win_start(t) && 0 <= x < pp.len() implies
+            #[trigger] b.connected(pp[x], t) by {
         assert(a.cand(pp[x], marked));
         if pp[x].0.0 >= a.root.0 { assert(b.st(pp[x].0).nf() == a.st(pp[x].0).nf()); }
         assert forall|u: Slot| pp[x].0.0 < u.0 < t.0 && u.0 >= b.root.0 implies (#[trigger] b.st(u)).skip by { assert(a.st(u).skip); }
@@ -373,6 +539,88 @@ pub proof fn lemma_wf_extend2(a: ParentReadyTracker, b: ParentReadyTracker, mark
             }
         }
     }
+}
+
+// wf survives a permutation of one slot's ready list (`wait_for_parent_ready` sorts it)
+pub proof fn lemma_wf_perm(a: ParentReadyTracker, b: ParentReadyTracker, slot: Slot)
+    requires
+        a.wf(), b.root == a.root, b.rn(),
+        forall|t: Slot| t != slot ==> #[trigger] b.st(t) == a.st(t),
+        b.st(slot).skip == a.st(slot).skip && b.st(slot).nf() == a.st(slot).nf(),
+        b.st(slot).ready().len() == a.st(slot).ready().len(),
+        forall|x: BlockId| #[trigger] b.st(slot).ready().contains(x) <==> a.st(slot).ready().contains(x),
+        b.st(slot).ready().no_duplicates(),
+    ensures b.wf(),
+{
+    let h = choose|h: int| a.skip_horizon(h);
+    assert(b.skip_horizon(h));
+    assert forall|s: Slot| (#[trigger] b.st(s)).nf().no_duplicates() by { assert(a.st(s).nf().no_duplicates()); }
+    assert forall|s: Slot| (#[trigger] b.st(s)).ready().no_duplicates() by { assert(a.st(s).ready().no_duplicates()); }
+    assert forall|s: Slot| s.0 >= b.root.0 && (#[trigger] b.st(s)).ready().len() > 0 implies win_start(s) by {
+        assert(a.st(s).ready().len() > 0);
+    }
+    assert forall|s: Slot, i: int| s.0 >= b.root.0 && 0 <= i < b.st(s).ready().len() implies
+        b.connected(#[trigger] b.st(s).ready()[i], s) by {
+        let p = b.st(s).ready()[i];
+        assert(b.st(s).ready().contains(p));
+        assert(a.st(s).ready().contains(p));
+        let j = choose|j: int| 0 <= j < a.st(s).ready().len() && a.st(s).ready()[j] == p;
+        assert(a.connected(a.st(s).ready()[j], s));
+        if p.0.0 >= a.root.0 { assert(b.st(p.0).nf() == a.st(p.0).nf()); }
+        assert forall|t: Slot| p.0.0 < t.0 < s.0 && t.0 >= b.root.0 implies (#[trigger] b.st(t)).skip by { assert(a.st(t).skip); }
+    }
+}
+
+// wf survives dropping every slot below a later root
+pub proof fn lemma_wf_prune(a: ParentReadyTracker, b: ParentReadyTracker)
+    requires
+        a.wf(), b.root.0 >= a.root.0,
+        forall|t: Slot| t.0 >= b.root.0 ==> #[trigger] b.st(t) == a.st(t),
+        forall|t: Slot| t.0 < b.root.0 ==> #[trigger] b.st(t) == spec_default_state(),
+    ensures b.wf(),
+{
+    broadcast use axiom_default_state;
+    let h = choose|h: int| a.skip_horizon(h);
+    assert(b.skip_horizon(h)) by {
+        assert forall|t: Slot| (#[trigger] b.st(t)).skip implies t.0 < h by { if t.0 >= b.root.0 { assert(a.st(t).skip); } }
+    }
+    assert forall|s: Slot| (#[trigger] b.st(s)).nf().no_duplicates() by { assert(a.st(s).nf().no_duplicates()); }
+    assert forall|s: Slot| (#[trigger] b.st(s)).ready().no_duplicates() by { assert(a.st(s).ready().no_duplicates()); }
+    assert forall|s: Slot| (#[trigger] b.st(s)).ready_nonempty() by { assert(a.st(s).ready_nonempty()); }
+    assert forall|s: Slot| s.0 >= b.root.0 && (#[trigger] b.st(s)).ready().len() > 0 implies win_start(s) by {
+        assert(a.st(s).ready().len() > 0);
+    }
+    assert forall|s: Slot, i: int| s.0 >= b.root.0 && 0 <= i < b.st(s).ready().len() implies
+        b.connected(#[trigger] b.st(s).ready()[i], s) by {
+        let p = a.st(s).ready()[i];
+        assert(a.connected(p, s));
+        assert forall|t: Slot| p.0.0 < t.0 < s.0 && t.0 >= b.root.0 implies (#[trigger] b.st(t)).skip by { assert(a.st(t).skip); }
+    }
+}
+
+pub proof fn lemma_default_wf(r: ParentReadyTracker, g: ParentReadyState)
+    requires
+        r.root.0 == 0,
+        spec_map(r.states) == Map::<Slot, ParentReadyState>::empty().insert(Slot(0), g)
+            && !g.skip && g.nf() == Seq::<BlockHash>::empty().push(spec_genesis_hash()) && g.ready().len() == 0 && g.is_ready == IsReady::NotReady(None),
+    ensures
+        r.wf(),
+        forall|b: BlockId| #[trigger] r.nf_has(b) <==> b == (Slot(0), spec_genesis_hash()),
+        forall|t: Slot| !(#[trigger] r.st(t)).skip && r.st(t).ready().len() == 0,
+{
+    broadcast use axiom_default_state;
+    assert(r.st(Slot(0)) == g);
+    assert forall|t: Slot| t != Slot(0) implies #[trigger] r.st(t) == spec_default_state() by {}
+    assert forall|t: Slot| !(#[trigger] r.st(t)).skip && r.st(t).ready().len() == 0 by { if t != Slot(0) {} }
+    assert(r.skip_horizon(0));
+    assert forall|b: BlockId| #[trigger] r.nf_has(b) <==> b == (Slot(0), spec_genesis_hash()) by {
+        if b.0 == Slot(0) {
+            let q = Seq::<BlockHash>::empty().push(spec_genesis_hash());
+            assert(q[0] == spec_genesis_hash());
+            if q.contains(b.1) { let i = choose|i: int| 0 <= i < q.len() && q[i] == b.1; }
+        } else { assert(r.st(b.0).nf().len() == 0); }
+    }
+    assert forall|s: Slot| (#[trigger] r.st(s)).nf().no_duplicates() by { if s != Slot(0) {} }
 }
 
 pub mod code {
@@ -418,8 +666,53 @@ requires
 ensures
         // [C07.ready_parents_recorded_and_waiter_woken]
         final(self).ready() == old(self).ready().push(id),
+        final(self).is_ready is Ready,
         final(self).skip == old(self).skip && final(self).notar_fallbacks == old(self).notar_fallbacks,
-        (old(self).is_ready matches IsReady::NotReady(Some(_))) ==> (was_woken_with(id) || true),
+        // [C07.registered_waiter_is_woken_with_the_ready_parent]
+        (old(self).is_ready matches IsReady::NotReady(Some(tx)) ==> sent_on(tx, id)),
+@*/
+/*@ extract src/consensus/pool/parent_ready_tracker/parent_ready_state.rs :: impl ParentReadyState/fn genesis
+props C07
+ret r
+rewrite[R8] `SmallVec::from([GENESIS_BLOCK_HASH])` => `SmallVec::verif_singleton(GENESIS_BLOCK_HASH)`
+rewrite[R8] `IsReady::default()` => `IsReady::NotReady(None)`
+ensures
+        // [C07.genesis_counts_as_certified]
+        !r.skip && r.nf() == Seq::<BlockHash>::empty().push(spec_genesis_hash()) && r.ready().len() == 0 && r.is_ready == IsReady::NotReady(None),
+@*/
+/*@ extract src/consensus/pool/parent_ready_tracker/parent_ready_state.rs :: impl ParentReadyState/fn wait_for_parent_ready
+props C07
+ret r
+sig `oneshot::Receiver<BlockId>` => `OneshotReceiver`
+rewrite[R8] `block_ids[0].clone()` => `verif_clone_block_id(block_ids.verif_index(0))`
+rewrite[R8] `oneshot::channel()` => `verif_oneshot_channel()`
+requires
+        old(self).ready_nonempty(),
+        // at most one waiter per slot (caller obligation: the block producer asks once per window)
+        // [C07.single_waiter_per_slot]
+        !(old(self).is_ready matches IsReady::NotReady(Some(_))),
+ensures
+        final(self).skip == old(self).skip && final(self).notar_fallbacks == old(self).notar_fallbacks,
+        final(self).ready_nonempty(),
+        // [C07.waiter_gets_ready_parent_or_is_registered]
+        match r {
+            Either::Left(b) => old(self).ready().contains(b)
+                && (forall|i: int| 0 <= i < old(self).ready().len() ==> b.0.0 <= (#[trigger] old(self).ready()[i]).0.0)
+                && final(self).ready().len() == old(self).ready().len()
+                && (forall|x: BlockId| #[trigger] final(self).ready().contains(x) <==> old(self).ready().contains(x))
+                && (old(self).ready().no_duplicates() ==> final(self).ready().no_duplicates()),
+            Either::Right(rx) => old(self).ready().len() == 0 && final(self).ready().len() == 0
+                && (final(self).is_ready matches IsReady::NotReady(Some(tx)) && paired(tx, rx)),
+        },
+after `block_ids.sort();`
+        proof {
+            assert(block_ids.view().contains(block_ids.view()[0]));
+            assert forall|i: int| 0 <= i < old(self).ready().len() implies block_ids.view()[0].0.0 <= (#[trigger] old(self).ready()[i]).0.0 by {
+                assert(block_ids.view().contains(old(self).ready()[i]));
+                let j = choose|j: int| 0 <= j < block_ids.view().len() && block_ids.view()[j] == old(self).ready()[i];
+                assert(block_ids.view()[0].0.0 <= block_ids.view()[j].0.0);
+            }
+        }
 @*/
 /*@ extract src/consensus/pool/parent_ready_tracker/parent_ready_state.rs :: impl ParentReadyState/fn ready_block_ids
 props C07
@@ -431,6 +724,17 @@ ensures
 @*/
 }
 
+
+impl ParentReadyState {
+// Canary: the real mark_skip body under a deliberately false contract; MUST fail.
+/*@ extract src/consensus/pool/parent_ready_tracker/parent_ready_state.rs :: impl ParentReadyState/fn mark_skip
+as canary_mark_skip
+expect-fail
+ret r
+ensures
+        r == old(self).skip,
+@*/
+}
 
 impl Slot {
 /*@ extract src/types/slot.rs :: impl Slot/fn next
@@ -450,6 +754,11 @@ ensures
 ret r
 ensures
         r == self.0,
+@*/
+/*@ extract src/types/slot.rs :: impl Slot/fn genesis
+ret r
+ensures
+        r.0 == 0,
 @*/
 /*@ extract src/types/slot.rs :: impl Slot/fn first_slot_in_window
 ret r
@@ -495,6 +804,8 @@ ensures
         forall|t: Slot| (#[trigger] final(self).st(t)).skip == old(self).st(t).skip,
         forall|b: BlockId| old(self).nf_has(b) ==> #[trigger] final(self).nf_has(b),
         id.0.0 >= old(self).root.0 ==> final(self).nf_has(*id),
+        Self::ext(*old(self), *final(self)),
+        forall|i: int| 0 <= i < r.view().len() ==> Self::ann(*old(self), *final(self), #[trigger] r.view()[i]),
 before `let (slot, hash) = verif_clone_block_id(id);`
         let ghost pre = *old(self);
         let ghost hz = choose|h: int| pre.skip_horizon(h);
@@ -528,7 +839,7 @@ loop 0
         invariant
             pre.wf() && pre.skip_horizon(hz) && pre == *old(self),
             slot == id.0 && verif_it.0 >= slot.0 && id.0.0 < u64::MAX && id.0.0 >= pre.root.0,
-            self.root == pre.root,
+            self.root == pre.root && self.rn(),
             !pre.nf_has(*id) && mid.nf_has(*id),
             forall|t: Slot| (#[trigger] self.st(t)).skip == pre.st(t).skip,
             forall|t: Slot| (#[trigger] self.st(t)).nf() == mid.st(t).nf(),
@@ -567,6 +878,8 @@ ensures
         // notar-fallback marks never change here; only this slot's skip flag is set
         forall|t: Slot| (#[trigger] final(self).st(t)).nf() == old(self).st(t).nf(),
         forall|t: Slot| (#[trigger] final(self).st(t)).skip == (old(self).st(t).skip || (t == marked_slot && marked_slot.0 >= old(self).root.0)),
+        Self::ext(*old(self), *final(self)),
+        forall|i: int| 0 <= i < r.view().len() ==> Self::ann(*old(self), *final(self), #[trigger] r.view()[i]),
 before `if marked_slot < self.root {`
         let ghost pre = *old(self);
         let ghost hz = choose|h: int| pre.skip_horizon(h);
@@ -633,7 +946,7 @@ loop 2
             verif_it.0 > marked_slot.0 ==> mid.st(verif_it).skip,
         invariant
             Self::skip_step(pre, mid, marked_slot) && mid.wf() && mid.skip_horizon(hz2) && pre == *old(self),
-            self.root == pre.root,
+            self.root == pre.root && self.rn(),
             potential_parents.view() == pp && mid.scan_ok(marked_slot, pp),
             verif_it.0 >= marked_slot.0,
             forall|t: Slot| (#[trigger] self.st(t)).skip == mid.st(t).skip,
@@ -656,7 +969,7 @@ loop 3
             verif_i <= verif_pp@.len() && verif_pp@ == pp && pp.no_duplicates(),
             forall|x: int| 0 <= x < pp.len() ==> !r0.contains(#[trigger] pp[x]),
             state.ready() == r0 + pp.subrange(0, verif_i as int),
-            state.skip == fin0.skip && state.notar_fallbacks == fin0.notar_fallbacks,
+            state.skip == fin0.skip && state.notar_fallbacks == fin0.notar_fallbacks && state.ready_nonempty(),
             newly_certified.view() == nc0 + Seq::new(verif_i as nat, |x: int| (slot, pp[x])),
         decreases verif_pp@.len() - verif_i,
 before `state.add_to_ready(verif_clone_block_id(parent));`
@@ -682,6 +995,157 @@ before `newly_certified }`
         proof {
             lemma_wf_extend2(mid, *self, marked_slot, pp, verif_it);
         }
+@*/
+
+/*@ extract src/consensus/pool/parent_ready_tracker.rs :: impl Default for ParentReadyTracker/fn default
+props C07
+ret r
+rewrite[R8] `HashMap::new()` => `verif_states_new()`
+rewrite[R8] `states.insert(Slot::genesis(), genesis_parent_state);` => `verif_states_insert(&mut states, Slot::genesis(), genesis_parent_state);`
+ensures
+        // [C07.initially_only_genesis_is_certified]
+        r.wf() && r.root.0 == 0,
+        forall|b: BlockId| #[trigger] r.nf_has(b) <==> b == (Slot(0), spec_genesis_hash()),
+        forall|t: Slot| !(#[trigger] r.st(t)).skip && r.st(t).ready().len() == 0,
+rewrite[R10] `Self { states, root: Slot::genesis(), }` => `let verif_r = Self { states, root: Slot::genesis(), }; proof { lemma_default_wf(verif_r, g); } verif_r`
+before `verif_states_insert(&mut states, Slot::genesis(), genesis_parent_state);`
+        let ghost g = genesis_parent_state;
+@*/
+
+/*@ extract src/consensus/pool/parent_ready_tracker.rs :: impl ParentReadyTracker/fn parents_ready
+props C07
+ret r
+rewrite[R8] `self.states .get(&slot) .map_or(&[], |state| state.ready_block_ids())` => `match verif_states_get(&self.states, &slot) { None => verif_empty_slice(), Some(state) => state.ready_block_ids() }`
+ensures
+        // [C07.query_agrees_with_recorded_parents]
+        r@ == self.st(slot).ready(),
+@*/
+
+/*@ extract src/consensus/pool/parent_ready_tracker.rs :: impl ParentReadyTracker/fn wait_for_parent_ready
+props C07
+ret r
+sig `oneshot::Receiver<BlockId>` => `OneshotReceiver`
+rewrite[R5] `self.states.entry(slot).or_default()` => `self.slot_state(slot)`
+rewrite[R10] `state.wait_for_parent_ready()` => `let verif_r = state.wait_for_parent_ready(); let ghost fin = *state; proof { lemma_frame(pre, *self, slot, fin); lemma_wf_perm(pre, *self, slot); } verif_r`
+requires
+        old(self).wf(),
+        // [C07.single_waiter_per_slot] (caller obligation)
+        !(old(self).st(slot).is_ready matches IsReady::NotReady(Some(_))),
+ensures
+        final(self).wf() && final(self).root == old(self).root,
+        // [C07.waiter_gets_ready_parent_or_is_registered]
+        match r {
+            Either::Left(b) => old(self).st(slot).ready().contains(b)
+                && (forall|i: int| 0 <= i < old(self).st(slot).ready().len() ==> b.0.0 <= (#[trigger] old(self).st(slot).ready()[i]).0.0),
+            Either::Right(rx) => old(self).st(slot).ready().len() == 0
+                && (final(self).st(slot).is_ready matches IsReady::NotReady(Some(tx)) && paired(tx, rx)),
+        },
+        // nothing is gained or lost
+        forall|t: Slot, b: BlockId| #[trigger] final(self).st(t).ready().contains(b) <==> old(self).st(t).ready().contains(b),
+        forall|t: Slot| (#[trigger] final(self).st(t)).skip == old(self).st(t).skip && final(self).st(t).nf() == old(self).st(t).nf(),
+before `let state = self.slot_state(slot);`
+        let ghost pre = *old(self);
+@*/
+
+/*@ extract src/consensus/pool/parent_ready_tracker.rs :: impl ParentReadyTracker/fn prune
+props C07
+rewrite[R8] `self.states.retain(|slot, _|` => `verif_states_retain(&mut self.states, |slot|`
+requires
+        old(self).wf(),
+        // the root only moves forward (caller: the first unpruned slot of the finality tracker)
+        new_root.0 >= old(self).root.0,
+ensures
+        final(self).wf() && final(self).root == new_root,
+        // [C07.pruning_loses_no_pair_and_adds_none]
+        forall|t: Slot| t.0 >= new_root.0 ==> #[trigger] final(self).st(t) == old(self).st(t),
+        forall|t: Slot| t.0 < new_root.0 ==> #[trigger] final(self).st(t) == spec_default_state(),
+closure 0
+        params slot: &Slot
+        ret b: bool
+        ensures b == (slot.0 >= new_root.0)
+before `self.root = new_root;`
+        let ghost pre = *old(self);
+blockend `self.root = new_root;`
+        proof {
+            assert forall|t: Slot| t.0 >= new_root.0 implies #[trigger] self.st(t) == pre.st(t) by {
+                if spec_map(pre.states).contains_key(t) { assert(spec_map(self.states).contains_key(t)); }
+                else { assert(!spec_map(self.states).contains_key(t)); }
+            }
+            assert forall|t: Slot| t.0 < new_root.0 implies #[trigger] self.st(t) == spec_default_state() by {
+                if spec_map(pre.states).contains_key(t) { assert(!spec_map(self.states).contains_key(t)); }
+                else { assert(!spec_map(self.states).contains_key(t)); }
+            }
+            lemma_wf_prune(pre, *self);
+        }
+@*/
+
+/*@ extract src/consensus/pool/parent_ready_tracker.rs :: impl ParentReadyTracker/fn handle_finalization
+props C07
+ret r
+rewrite*[R8] `parents_ready.extend(` => `parents_ready.verif_extend(`
+rewrite[R4] `for block_id in &event.implicitly_finalized {` => `let verif_if = &event.implicitly_finalized; let mut verif_a: usize = 0; while verif_a < verif_if.len() { let block_id = &verif_if[verif_a]; verif_a += 1;`
+rewrite[R4] `for slot in event.implicitly_skipped {` => `let verif_is = &event.implicitly_skipped; let mut verif_b: usize = 0; while verif_b < verif_is.len() { let slot = verif_is[verif_b]; verif_b += 1;`
+rewrite[R8] `parents_ready.iter().max_by_key(|(slot, _)| slot)` => `verif_max_by_slot(&parents_ready)`
+rewrite[R8] `maybe_parent.into_iter().cloned().collect()` => `verif_opt_collect(maybe_parent)`
+requires
+        old(self).wf(),
+        // slot numbers stay clear of u64::MAX (machine arithmetic)
+        event.finalized is Some ==> (event.finalized->0).0.0 < u64::MAX,
+        forall|i: int| 0 <= i < event.implicitly_finalized@.len() ==> (#[trigger] event.implicitly_finalized@[i]).0.0 < u64::MAX,
+        forall|i: int| 0 <= i < event.implicitly_skipped@.len() ==> (#[trigger] event.implicitly_skipped@[i]).0 < u64::MAX - SLOTS_PER_WINDOW,
+ensures
+        final(self).wf(),
+        Self::ext(*old(self), *final(self)),
+        // [C07.finalization_marks_blocks_and_skips]
+        event.finalized is Some && (event.finalized->0).0.0 >= old(self).root.0 ==> final(self).nf_has(event.finalized->0),
+        forall|i: int| 0 <= i < event.implicitly_finalized@.len() && (#[trigger] event.implicitly_finalized@[i]).0.0 >= old(self).root.0
+            ==> final(self).nf_has(event.implicitly_finalized@[i]),
+        forall|i: int| 0 <= i < event.implicitly_skipped@.len() && (#[trigger] event.implicitly_skipped@[i]).0 >= old(self).root.0
+            ==> final(self).st(event.implicitly_skipped@[i]).skip,
+        // [C07.announced_exactly_the_newly_ready_pairs] (at most one: the highest window)
+        r.view().len() <= 1,
+        forall|i: int| 0 <= i < r.view().len() ==> Self::ann(*old(self), *final(self), #[trigger] r.view()[i]),
+before `let mut parents_ready = SmallVec::<[(Slot, BlockId); 1]>::new();`
+        let ghost pre = *old(self);
+        proof { lemma_ext_refl(pre); }
+before `parents_ready.verif_extend(self.mark_notar_fallback(finalized));`
+        let ghost cur = *self;
+        let ghost acc = parents_ready.view();
+after `parents_ready.verif_extend(self.mark_notar_fallback(finalized));`
+        proof { lemma_collect(pre, cur, *self, acc, parents_ready.view().subrange(acc.len() as int, parents_ready.view().len() as int)); 
+                assert(parents_ready.view() =~= acc + parents_ready.view().subrange(acc.len() as int, parents_ready.view().len() as int)); }
+loop 0
+        invariant
+            pre == *old(self) && pre.wf() && self.wf() && Self::ext(pre, *self),
+            verif_a <= verif_if@.len() && verif_if@ == event.implicitly_finalized@,
+            forall|i: int| 0 <= i < event.implicitly_finalized@.len() ==> (#[trigger] event.implicitly_finalized@[i]).0.0 < u64::MAX,
+            forall|i: int| 0 <= i < event.implicitly_skipped@.len() ==> (#[trigger] event.implicitly_skipped@[i]).0 < u64::MAX - SLOTS_PER_WINDOW,
+            forall|i: int| 0 <= i < parents_ready.view().len() ==> Self::ann(pre, *self, #[trigger] parents_ready.view()[i]),
+            event.finalized is Some && (event.finalized->0).0.0 >= pre.root.0 ==> self.nf_has(event.finalized->0),
+            forall|i: int| 0 <= i < verif_a && (#[trigger] event.implicitly_finalized@[i]).0.0 >= pre.root.0 ==> self.nf_has(event.implicitly_finalized@[i]),
+        decreases verif_if@.len() - verif_a,
+before `parents_ready.verif_extend(self.mark_notar_fallback(block_id));`
+        let ghost cur = *self;
+        let ghost acc = parents_ready.view();
+after `parents_ready.verif_extend(self.mark_notar_fallback(block_id));`
+        proof { lemma_collect(pre, cur, *self, acc, parents_ready.view().subrange(acc.len() as int, parents_ready.view().len() as int)); 
+                assert(parents_ready.view() =~= acc + parents_ready.view().subrange(acc.len() as int, parents_ready.view().len() as int)); }
+loop 1
+        invariant
+            pre == *old(self) && pre.wf() && self.wf() && Self::ext(pre, *self),
+            verif_b <= verif_is@.len() && verif_is@ == event.implicitly_skipped@,
+            forall|i: int| 0 <= i < event.implicitly_skipped@.len() ==> (#[trigger] event.implicitly_skipped@[i]).0 < u64::MAX - SLOTS_PER_WINDOW,
+            forall|i: int| 0 <= i < parents_ready.view().len() ==> Self::ann(pre, *self, #[trigger] parents_ready.view()[i]),
+            event.finalized is Some && (event.finalized->0).0.0 >= pre.root.0 ==> self.nf_has(event.finalized->0),
+            forall|i: int| 0 <= i < event.implicitly_finalized@.len() && (#[trigger] event.implicitly_finalized@[i]).0.0 >= pre.root.0 ==> self.nf_has(event.implicitly_finalized@[i]),
+            forall|i: int| 0 <= i < verif_b && (#[trigger] event.implicitly_skipped@[i]).0 >= pre.root.0 ==> self.st(event.implicitly_skipped@[i]).skip,
+        decreases verif_is@.len() - verif_b,
+before `parents_ready.verif_extend(self.mark_skipped(slot));`
+        let ghost cur = *self;
+        let ghost acc = parents_ready.view();
+after `parents_ready.verif_extend(self.mark_skipped(slot));`
+        proof { lemma_collect(pre, cur, *self, acc, parents_ready.view().subrange(acc.len() as int, parents_ready.view().len() as int)); 
+                assert(parents_ready.view() =~= acc + parents_ready.view().subrange(acc.len() as int, parents_ready.view().len() as int)); }
 @*/
 }
 
